@@ -1,7 +1,7 @@
 (* C20 — Writes exclude and cancel concurrent readers; results never mix revisions.
    State-machine level (Cancel/Model.v: writer/reader machine, stamp rule). *)
 From Salsa Require Import Base.
-From Salsa.Cancel Require Import TokK Model Proofs.
+From Salsa.Cancel Require Import Model Proofs.
 
 Theorem C20_exclusive :
   forall s a w s' o,
